@@ -386,3 +386,59 @@ func mutexKey(v ssa.Value) string {
 
 // MutexKey is exported for rules that need to name the expected lock.
 func MutexKey(v ssa.Value) string { return mutexKey(v) }
+
+// NilEdges returns the CFG edges on which v (an error / pointer / interface
+// value) is known to be nil resp. non-nil, from `v == nil` / `v != nil` tests.
+// Values merged through phis are followed one level.
+func NilEdges(v ssa.Value) (isNil, nonNil map[Edge]bool) {
+	isNil, nonNil = map[Edge]bool{}, map[Edge]bool{}
+	vals := []ssa.Value{v}
+	if v.Referrers() != nil {
+		for _, r := range *v.Referrers() {
+			if ph, ok := r.(*ssa.Phi); ok {
+				vals = append(vals, ph)
+			}
+			if st, ok := r.(*ssa.Store); ok && st.Val == v {
+				// spilled into a cell: loads of the cell
+				if a, ok := st.Addr.(*ssa.Alloc); ok {
+					for _, rr := range *a.Referrers() {
+						if u, ok := rr.(*ssa.UnOp); ok && u.Op == token.MUL {
+							vals = append(vals, u)
+						}
+					}
+				}
+			}
+		}
+	}
+	for _, val := range vals {
+		if val.Referrers() == nil {
+			continue
+		}
+		for _, r := range *val.Referrers() {
+			b, ok := r.(*ssa.BinOp)
+			if !ok || (b.Op != token.EQL && b.Op != token.NEQ) {
+				continue
+			}
+			other := b.Y
+			if b.Y == val {
+				other = b.X
+			}
+			if !IsNilConst(other) {
+				continue
+			}
+			for _, rr := range *b.Referrers() {
+				iff, ok := rr.(*ssa.If)
+				if !ok {
+					continue
+				}
+				t, f := Edge{iff.Block(), 0}, Edge{iff.Block(), 1}
+				if b.Op == token.EQL {
+					isNil[t], nonNil[f] = true, true
+				} else {
+					nonNil[t], isNil[f] = true, true
+				}
+			}
+		}
+	}
+	return
+}
